@@ -40,6 +40,7 @@ Vocabulary (Filter/FilterTie.v, FilterModel.v, PathModel.v, PyStr.v) - the TRUST
     for v in L: if T: x = c; break              x := if existsb (fun v => T) L then c else x
     for v in L: if T: return c                  if existsb (fun v => T) L then c else <rest>
     for v in L: <adds to result>                result := fold_left (fun result v => ...) L result
+    pass                                        (nothing)
     {items} / set(items)  (helper)              py_singleton items / py_items items  on the argument sum type paths_arg
     isinstance(items, strings)                  py_is_str items
 
@@ -363,7 +364,7 @@ class Fun:
                 out += self.assigned(s.body, env)
             elif self.is_add(s, env):
                 out.append(s.value.func.value.id)
-            elif isinstance(s, (ast.Break, ast.Return)):
+            elif isinstance(s, (ast.Break, ast.Return, ast.Pass)):
                 pass
             else:
                 _bad(self.fn, s, "statement form")
@@ -409,6 +410,8 @@ class Fun:
                 return pad + env[tail[1]][0], env[tail[1]][1]
             return pad + tail[1], tail[2]
         s, rest = stmts[0], stmts[1:]
+        if isinstance(s, ast.Pass):                      # `pass` does nothing
+            return self.block(rest, env, tail, ind)
         if isinstance(s, ast.Return):
             if rest:
                 _bad(fn, rest[0], "statement after return")
@@ -570,6 +573,13 @@ def find_function(tree, fn, cls, name):
             for t in ast.walk(n):
                 if isinstance(t, ast.Name) and t.id == name and isinstance(t.ctx, ast.Store):
                     _bad(fn, n, "the name %s is rebound" % name)
+    # the function replaced from outside its scope: X._skip_this = ..., setattr(X, "_skip_this", ...), del X._skip_this
+    for n in ast.walk(tree):
+        if isinstance(n, ast.Attribute) and n.attr == name and isinstance(n.ctx, (ast.Store, ast.Del)):
+            _bad(fn, n, "the attribute %s is assigned" % name)
+        if isinstance(n, ast.Call) and isinstance(n.func, ast.Name) and n.func.id in ("setattr", "delattr") and len(n.args) >= 2 \
+                and isinstance(n.args[1], ast.Constant) and n.args[1].value == name:
+            _bad(fn, n, "setattr of %s" % name)
     return fs[0]
 
 
